@@ -50,6 +50,9 @@ func verifRender(b *strings.Builder, node ASTNode) {
 	b.WriteString(strings.TrimPrefix(node.nodeType.String(), "AST"))
 	switch v := node.value.(type) {
 	case nil:
+		if node.nodeType == ASTLiteral {
+			b.WriteString(" json:null")
+		}
 	case tokType:
 		b.WriteByte(' ')
 		b.WriteString(v.String())
